@@ -236,10 +236,13 @@ func main() {
 		}
 		// bodies that are the zero value of their type (or empty): the request still carries the serializer's output for them
 		if ct.kind == "json" {
-			for _, body := range []interface{}{0, "", false, 0.0, struct{}{}, payload{}, []int{}, [2]int{}, map[string]int{}, "x", 5} {
+			for _, body := range []interface{}{0, "", false, 0.0, struct{}{}, payload{}, []int{}, [2]int{}, map[string]int{}, "x", 5,
+				[]int(nil), map[string]int(nil), []payload(nil), &payload{}, []interface{}{nil}} {
 				inputs++
 				bodyCase(ct, base, body)
 			}
+			inputs++
+			replayCase(ct, base)
 		}
 	}
 	// nested evaluation under each sync.Pool policy of the shim: an interceptor of the outer API evaluates a
@@ -297,6 +300,40 @@ func bodyCase(ct ctor, base string, body interface{}) {
 			got = fmt.Sprintf("%q", st.reqs[0].body)
 		}
 		bad("body|zero-valued", "%s with body %#v (%T): the request carried %s, the serializer's output is %q", ct.name, body, body, got, want)
+	}
+}
+
+// replayCase: the same returned MonadIO evaluated three times (a retry) with a serializer that hands out a
+// one-shot reader (a *bytes.Buffer: no Seek): every evaluation's request carries the whole serializer output.
+func replayCase(ct ctor, base string) {
+	st := &stub{respBody: `{"A":42}`}
+	api := network.NewSimpleAPIWithSimpleHTTP(base, network.NewSimpleHTTPWithClientAndInterceptors(&http.Client{Transport: st}))
+	calls := 0
+	api.RequestSerializerForJSON = func(body interface{}) (io.Reader, error) {
+		calls++
+		b, err := json.Marshal(body)
+		return bytes.NewBuffer(b), err
+	}
+	var t reply
+	body := payload{A: 7, B: "again"}
+	want, _ := json.Marshal(body)
+	p := lib.Catch(func() {
+		m := ct.mk(api, "x")(nil, body, &t)
+		for i := 0; i < 3; i++ {
+			evals++
+			m.Eval()
+		}
+	})
+	if p != "" {
+		bad("panic|eval|replay", "%s evaluated three times with a serializer returning a *bytes.Buffer: %s", ct.name, p)
+		return
+	}
+	var got []string
+	for _, rq := range st.reqs {
+		got = append(got, rq.body)
+	}
+	if len(got) != 3 || got[0] != string(want) || got[1] != string(want) || got[2] != string(want) {
+		bad("body|replayed-evaluation", "%s: one MonadIO evaluated three times, serializer returning a one-shot reader (called %d times): request bodies %q, each must be %q", ct.name, calls, got, want)
 	}
 }
 
